@@ -43,14 +43,14 @@ theorem add_false_collides {S : SDoc → Prop} {i i' : Index} {sd : SDoc}
 
 /-- a successful `Index.add` means there was no collision (uses transitivity of `tupleEq`) -/
 theorem add_true_not_collides {S : SDoc → Prop} {i i' : Index} {sd : SDoc}
-    (hc : IndexCoherent sch S i) (hok : ∀ x, S x → DocOk x.doc) (hsd : DocOk sd.doc)
+    (hc : IndexCoherent sch S i) (hinj : IdInj S) (hok : ∀ x, S x → DocOk x.doc) (hsd : DocOk sd.doc)
     (h : i.add sch sd = .ok (i', true)) : ¬ CollidesAt sch S i sd.doc := by
   rintro ⟨hu, hb, x, hx, hbx, t, ht, k, hk, he⟩
   unfold Index.add at h
   unfold belongs at hb
   rw [hb] at h
   simp only [Except.ok.injEq] at h
-  have := no_collision_of_baseAdd hc hok hsd hu h x hx hbx k hk t ht
+  have := no_collision_of_baseAdd hc hinj hsd hu h x hx (hok x hx) hbx k hk t ht
   rw [he] at this; cases this
 
 /-- with evaluable partial filters `Index.add` never errors -/
@@ -128,7 +128,7 @@ theorem addToIndexes_ok_of_not_collides {S : SDoc → Prop} {sd : SDoc} {idx : L
 
 /-- a collision ⇒ the document is rejected with `.dup` (given evaluable partial filters) -/
 theorem addToIndexes_dup_of_collides {S : SDoc → Prop} {sd : SDoc} {idx : List (String × Index)}
-    (hc : AllCoherent sch S idx) (hok : ∀ x, S x → DocOk x.doc) (hsd : DocOk sd.doc)
+    (hc : AllCoherent sch S idx) (hinj : IdInj S) (hok : ∀ x, S x → DocOk x.doc) (hsd : DocOk sd.doc)
     (htot : ∀ n i, (n, i) ∈ idx → ∃ b, partialMatches sch i sd.doc = .ok b)
     (hcol : ∃ n i, (n, i) ∈ idx ∧ CollidesAt sch S i sd.doc) :
     addToIndexes sch sd idx = .error .dup := by
@@ -158,7 +158,7 @@ theorem addToIndexes_dup_of_collides {S : SDoc → Prop} {sd : SDoc} {idx : List
               exact ⟨j', hj⟩
             · exact ih hr n i hm
     obtain ⟨i', hadd⟩ := this h n i hm
-    exact add_true_not_collides (hc n i hm) hok hsd hadd hcol
+    exact add_true_not_collides (hc n i hm) hinj hok hsd hadd hcol
   · exact h
 
 /-! ### Multi-update: the new documents only have to be collision-free among themselves and
@@ -257,7 +257,7 @@ theorem insert_reject_complete {c : Coll} {d d' : Doc} {nu nu1 : Nu}
     (hc : Coherent sch c) (he : ensureId d nu = .ok (d', nu1))
     (hok : DocsOk c.docs) (hd : DocOk d') (htot : FiltersTotal sch c d') (hcol : Collides sch c d') :
     c.insert sch d nu = .error .dup := by
-  have := addToIndexes_dup_of_collides (sd := ⟨nu.nextId, d'⟩) hc.2 hok hd htot hcol
+  have := addToIndexes_dup_of_collides (sd := ⟨nu.nextId, d'⟩) hc.2 (idInj_of_distinct hc.1) hok hd htot hcol
   rw [insert_unfold he]
   simp only [this]
 
